@@ -2,7 +2,7 @@
 """Regenerates /verif/MANIFEST.json from the table below (single source of truth)."""
 import json, subprocess
 
-HOOK_COMMITS = ["5ccaaac", "7f20f04"]
+HOOK_COMMITS = ["5ccaaac", "7f20f04", "91b53dd"]
 
 # id -> dict(level, text, note, technique, design)
 BUILT = {
